@@ -50,7 +50,9 @@ CLAIMED = {
              "ReadMemChunks::next (an iterator mutating its fields, executed symbolically) and ReadMem::maximum_read_length "
              "over lib/RustInt.v; C10_read_init_from_source, C10_read_next_from_source and "
              "C10_maximum_read_length_from_source prove them equal to the model's functions for every value of the fields' "
-             "types (the proof does not depend on the order of independent field updates).",
+             "types (the proof does not depend on the order of independent field updates); the WRITE side too: WriteMem::chunks, "
+             "WriteMemChunks::next (slices abstracted to index ranges, WriteMem::new(..).unwrap(), overflowing usize additions), "
+             "WriteMem::new and into_scd_len (C10_write_init_from_source, C10_write_next_from_source, C10_write_mem_new_from_source).",
         note="Trusted: Coq kernel, hand-written model (model/Chunks.v) validated by correspondence, extraction "
              "(ExtrOcamlBasic) cross-checked against vm_compute on a sample, ocaml/driver.ml, rust/h_proto, tools/c10.py. "
              "Debug-build overflow semantics (panic) modelled.",
